@@ -230,6 +230,10 @@ def run_graph(case):
     data_objs["predict:baseline_object:usage"] = bdata
     alphabet.append(("predict:baseline_object:usage", "predict:baseline_object:usage"))
     alphabet.append(("fit_other_meter", "fit_other"))
+    if base_family(family) in ("hourly", "hourly_solar") and family in ("hourly", "hourly_solar"):
+        # ANOTHER model, for a meter in a zone that shares this zone's UTC offset at both ends of the year but not its clock changes
+        # (America/Regina: UTC-6 all year), is fitted on and predicts the very same instants
+        alphabet.append(("other_model_in_another_zone_same_instants", "other_zone"))
     other_frame = baseline_frame(family, 365, seed=5)
     if family == "hourly_shared_settings":
         other_frame["occupancy"] = ((other_frame.index.hour >= 8) & (other_frame.index.hour < 18)).astype(float) * (1 + other_frame.index.dayofweek % 3)
@@ -242,6 +246,17 @@ def run_graph(case):
         return F.fp(m) + "|" + F.fp(js)
 
     def step(m, op):
+        if op == "other_zone":
+            import opendsm.eemeter as em
+
+            oz = "America/Regina"
+            om = fit(family, new_model(family), em.HourlyBaselineData(frame.tz_convert(oz), is_electricity_data=True))
+            outs = []
+            for name, start, ndays in sets:
+                if ndays >= 200:
+                    fr_o = ds.hourly_frame(start=start, days=ndays, tz=ZONE, wseed=1, seed=11, solar=base_family(family) == "hourly_solar").tz_convert(oz)
+                    outs.append(F.fp(predict(family, om, em.HourlyReportingData(fr_o, is_electricity_data=True))))
+            return {"out": "other_zone:" + F.fp(outs)}
         if op == "fit_other":
             other = fit(family, new_model(family), make_baseline(family, other_frame.copy()))
             return {"out": "fitted_other:" + F.fp(other.to_json())}
